@@ -3,11 +3,15 @@ package verifh
 func init() {
 	register(propC01{})
 	register(propC02{})
+	register(propC05{})
+	register(propC06{})
 	register(propC07{})
 	register(propC08{})
+	register(propC09{})
 	register(propC10{})
 	register(propC11{})
 	register(propC12{})
+	register(propC14{})
 	register(propC17{})
 	register(propC18{})
 }
